@@ -389,3 +389,35 @@ void h_sym_suppr(void)
   COVER(r && cfg[3] && cfg[6]); COVER(r && !cfg[3] && cfg[4]); COVER(!r && !null_sym && right_kind && (ck & k)); COVER(r && !has_name_c);
   WITNESS_END();
 }
+
+/* ---------------------------------------------------------------------------------------------------------------
+   type_kind constraint of [suppress_type] (C24): the real suppression_matches_type_no_name on a real section that gives
+   only a type_kind, against a type of each actual kind (class, struct, union, enum, array, typedef, built-in). */
+static u32 actual_kind;      /* 0 class (not struct), 1 struct, 2 union, 3 enum, 4 array, 5 typedef, 6 built-in */
+static _Bool type_has_loc;
+static void is_kind(void *sret, int yes) { sp_t *r = sret; r->p = yes ? (void *)t_obj : 0; r->c = 0; }
+void _ZN7abigail2ir13is_class_typeERKSt10shared_ptrINS0_17type_or_decl_baseEE(void *sret, void *t) { is_kind(sret, actual_kind <= 1); }
+void _ZN7abigail2ir13is_union_typeERKSt10shared_ptrINS0_17type_or_decl_baseEE(void *sret, void *t) { is_kind(sret, actual_kind == 2); }
+void _ZN7abigail2ir12is_enum_typeERKSt10shared_ptrINS0_17type_or_decl_baseEE(void *sret, void *t) { is_kind(sret, actual_kind == 3); }
+void _ZN7abigail2ir13is_array_typeERKSt10shared_ptrINS0_17type_or_decl_baseEE(void *sret, void *t) { is_kind(sret, actual_kind == 4); }
+void _ZN7abigail2ir10is_typedefESt10shared_ptrINS0_17type_or_decl_baseEE(void *sret, void *t) { is_kind(sret, actual_kind == 5); }
+void _ZN7abigail2ir12is_type_declERKSt10shared_ptrINS0_17type_or_decl_baseEE(void *sret, void *t) { is_kind(sret, actual_kind == 6); }
+u8 _ZNK7abigail2ir10class_decl9is_structEv(void *c) { return actual_kind == 1; }
+void _ZN7abigail2ir12get_locationERKSt10shared_ptrINS0_9type_baseEE(void *sret, void *t) { memset(sret, 0, 24); *(u32 *)sret = type_has_loc ? 5 : 0; }
+void h_type_kind(void)
+{
+  fs_mode = 0;
+  _Bool consider = nondet_bool(); u32 tk = nondet_u32(); actual_kind = nondet_u32(); type_has_loc = nondet_bool();
+  __CPROVER_assume(tk <= 7 && actual_kind <= 6);
+  static void *tk_vt[4];                 /* type_base -> its virtual base type_or_decl_base goes through vptr[-3] (offset 0 here) */
+  tk_vt[0] = 0; t_obj[0] = (u64)&tk_vt[3];
+  void *s = w_ts_kind_new(consider, tk);
+  sp_t tsp = { t_obj, 0 };
+  u8 r = _ZN7abigail5supprL32suppression_matches_type_no_nameERKNS0_16type_suppressionERKSt10shared_ptrINS_2ir9type_baseEE(s, &tsp);
+  /* type_kind values: 0 unknown (treated like class), 1 class, 2 struct, 3 union, 4 enum, 5 array, 6 typedef, 7 builtin */
+  int fits = tk <= 1 ? actual_kind <= 1 : tk == 2 ? actual_kind == 1 : actual_kind == tk - 1;
+  PROP(!(r && consider && !fits), "C24-type-kind-never-over-suppresses: a section with a type_kind never matches a type of another kind");
+  PROP((r != 0) == (!consider || fits), "C24-type-kind-exact: with only a type_kind given, the section matches exactly the types of that kind (class also covers struct)");
+  COVER(r && consider && tk == 2); COVER(!r && tk == 1 && actual_kind == 2); COVER(r && !consider); COVER(r && tk == 7);
+  WITNESS_END();
+}
